@@ -10,6 +10,8 @@ CLASSES = {
   'Structs': dict(file='scales/binary.py', path='Structs', bases=[]),
   'KafkaEndpoint': dict(extern=True, path=None, bases=[], fields={'partition_id': 'int', 'host': 'any', 'port': 'int'}),
   'KafkaTransportSink': dict(file='scales/kafka/sink.py', path='KafkaTransportSink', bases=['MuxSocketTransportSink'], fields={}),
+  'KafkaSerializerSink': dict(file='scales/kafka/sink.py', path='KafkaSerializerSink', bases=['ClientMessageSink'], fields={'_serializer': 'KafkaSerializer'}),
+  'KafkaSerializer': dict(extern=True, path=None, bases=[], fields={}),
 }
 
 PREDICATES = {
@@ -131,4 +133,31 @@ FUNCTIONS.update({
     ghost=[{'before': 'self._ProcessTaggedReply(tag, stream)', 'do': ['prove(tag == g_corr, "routed-by-the-correlation-id-in-the-first-four-bytes")']}],
     props=['C15', 'C11'],
   ),
+})
+
+
+FUNCTIONS.update({
+  # the serializer sink: every request is written into a buffer created for it, and that buffer -- holding exactly
+  # what the protocol wrote -- is what the transport gets (it frames stream.getvalue()); a serialization failure is
+  # answered as an error and nothing is forwarded
+  'KafkaSerializerSink.AsyncProcessRequest': dict(
+    file='scales/kafka/sink.py', cls='KafkaSerializerSink',
+    params={'sink_stack': 'ClientMessageSinkStack', 'msg': 'Message', 'stream': 'any', 'headers': 'any'},
+    locals={'buf': 'Stream', 'ex': 'any'}, literals={'{}': 'dict[any,any]'},
+    requires=['allocated(self._serializer)', 'allocated(sink_stack)', 'self._next is not None'], ensures=[],
+    modifies=['*'], allocates='any',
+    ghost=[
+      {'after': 'buf = BytesIO()', 'do': ['prove(fresh(buf), "a-buffer-of-its-own-for-every-request")', 'g_m = bmark(buf)']},
+      {'before': 'self.next_sink.AsyncProcessRequest(sink_stack, msg, buf, headers)', 'do': [
+        'prove(fresh(buf), "forwards-the-request-own-buffer")',
+        'prove(beq(content(buf), since(buf, g_m)), "the-forwarded-stream-holds-exactly-this-request")']},
+    ],
+    props=['C15'],
+  ),
+})
+
+EXTERNS.update({
+  'KafkaSerializer.SerializeMessage': dict(params=[('msg', 'Message'), ('buf', 'Stream'), ('headers', 'any')], returns='any', may_raise=['Exception'],
+                                           writes={'buf': 'braw(msg.g_thrift, msg.g_thrift_len)'},
+                                           notes='KafkaProtocol.SerializeMessage: appends the request body to the stream (its produce branch is the unit _SerializeProduceRequest)'),
 })
